@@ -26,4 +26,14 @@ ValenceValid(k) == \A n \in 1..Len(k.atoms) : k.atoms[n].h >= 0 /\ AdmitsH(EnvOf
 \* recorded gap: ring systems with an unsaturated four-membered ring (biphenylene type)
 Unsaturated4Ring(a) == \E q \in 1..Len(a.rings) : Len(a.rings[q]) = 4 /\
                           \E j \in 1..Len(a.bonds) : a.bonds[j][3] \in {2, 4} /\ {a.bonds[j][1], a.bonds[j][2]} \subseteq RingSet(a.rings[q])
+(* Existence (the minimal one the model states): a ring of six neutral carbon atoms whose ring bonds alternate double / single in the
+   Kekule form is a benzene ring and is aromatic in the aromatic form, whatever is fused or attached to it. *)
+BondOrd(m, x, y) == LET S == { j \in 1..Len(m.bonds) : {m.bonds[j][1], m.bonds[j][2]} = {x, y} } IN IF S = {} THEN 0 ELSE m.bonds[CHOOSE j \in S : TRUE][3]
+BenzeneRing(k, ring) ==
+  /\ Len(ring) = 6
+  /\ \A q \in 1..6 : k.atoms[ring[q]].z = 6 /\ k.atoms[ring[q]].c = 0 /\ k.atoms[ring[q]].r = 0
+  /\ \/ \A q \in 1..6 : BondOrd(k, ring[q], ring[(q % 6) + 1]) = (IF q % 2 = 1 THEN 2 ELSE 1)
+     \/ \A q \in 1..6 : BondOrd(k, ring[q], ring[(q % 6) + 1]) = (IF q % 2 = 1 THEN 1 ELSE 2)
+BenzeneRingsAromatic(k, a) == \A q \in 1..Len(k.rings) : BenzeneRing(k, k.rings[q]) =>
+                                \A j \in 1..6 : BondOrd(a, k.rings[q][j], k.rings[q][(j % 6) + 1]) = 4
 =============================================================================
